@@ -309,6 +309,8 @@ def trusted_base(ctx, loaded):
             tb.append(f"callback contract (user code) {n}" + (f": {c.note}" if c.note else ""))
         elif c.kind == "repo" and not c.verify:
             tb.append(f"UNVERIFIED repo contract {n}" + (f": {c.note}" if c.note else ""))
+        for k in getattr(c, "assume_entry", {}) or {}:
+            tb.append(f"assumed at entry of {n}: {k}")
     for m in loaded:
         for a in getattr(m, "ASSUMPTIONS", []):
             tb.append(a)
